@@ -1218,8 +1218,13 @@ def g_apisweep(rng):
     return f"apisweep {A.tok()} {B.tok()} {NA.tok()} {NB.tok()}"
 
 
+from gen_ordvec import g_ordvec
+from gen_achain import g_achain
+
+
 GENERATORS = {
     "apisweep": g_apisweep,
+    "ordvec": g_ordvec, "achain": g_achain,
     **{k: mk_cliop(v) for k, v in CLIOPS.items()},
     "meta": g_meta, "metaf": g_metaf,
     "parse": g_parse,
